@@ -335,24 +335,27 @@ def aggregate(func, values):
     nums = [to_number(v) for v in values]
     anyfloat = any(isinstance(x, float) for x in nums)
     ex = [exact(x) for x in nums]
+    # results that every implementation computes in floating point: the error bound is relative to the largest operand, not to the result
+    FL = 'float@%d' % max([1] + [int(abs(x)) + 1 for x in ex])
     if func == 'MIN':
         return ('float' if anyfloat else 'exact', min(ex))
     if func == 'MAX':
         return ('float' if anyfloat else 'exact', max(ex))
     if func == 'SUM':
-        return ('float' if anyfloat else 'exact', sum(ex))
+        return (FL if anyfloat else 'exact', sum(ex))
     if func == 'AVG':
-        return ('float', sum(ex) / len(ex))
+        return (FL, sum(ex) / len(ex))
     if func == 'VARIANCE':
         n = len(ex)
         mean = sum(ex) / n
-        return ('float', sum((x - mean) ** 2 for x in ex) / n)
+        # ... and for the variance relative to the squares that are summed
+        return ('float@%d' % max([1] + [int(x * x) for x in ex]), sum((x - mean) ** 2 for x in ex) / n)
     if func == 'MEDIAN':
         s = sorted(ex)
         n = len(s)
         if n % 2:
             return ('float' if anyfloat else 'exact', s[n // 2])
-        return ('float', (s[n // 2 - 1] + s[n // 2]) / 2)
+        return (FL, (s[n // 2 - 1] + s[n // 2]) / 2)
     raise ValueError(func)
 
 
